@@ -21,9 +21,13 @@ CONSTANTS
   MaxSHeld = 0
   StartBeforeEmit = TRUE
   CmdFreshTicket = TRUE
+  TimeoutUsesRemove = FALSE
+  LstCode = "-"
 CONSTRAINT DistinctTickets
 CONSTRAINT RegistryExact
 CONSTRAINT NoOverdue
+CONSTRAINT AllTold
+ACTION_CONSTRAINT ToldA
 ACTION_CONSTRAINT ResultIffLiveA
 ACTION_CONSTRAINT RemovedOnceAtTimeoutA
 ACTION_CONSTRAINT QuietAfterManualRemovalA
